@@ -3,7 +3,7 @@
    the doc comments of the operations; [abs f] = the typed lists of f without cleared
    entries.  Proofs: Modfile/EditProofsTyped.v, EditProofsComments.v. *)
 From Verif.Base Require Import Bytes.
-From Verif.Modfile Require Import EditModel EditOps EditSpec EditProofsTyped EditProofsHeap EditProofsComments.
+From Verif.Modfile Require Import EditModel EditOps EditSpec EditProofsTyped EditProofsHeap EditProofsComments EditProofsSeq EditProofsBlocks.
 
 (* Every operation that does not sort blocks refines its documented step on the keyed
    collections: same error result, and the abstraction of the new typed lists is the step
@@ -29,6 +29,44 @@ Theorem C08_work_sort_blocks_refines : forall f,
   DedupWf f -> abs (w_sort_blocks f) = fst (kstep WSortBlocks (abs f)).
 Proof. exact w_sort_blocks_abs. Qed.
 Print Assumptions C08_work_sort_blocks_refines.
+
+(* ... and under the C15 invariant, which provides DedupWf: *)
+Theorem C08_sort_blocks_refines_coherent : forall f,
+  Coherent f -> abs (sort_blocks f) = fst (kstep SortBlocks (abs f)).
+Proof. exact sort_blocks_refines_coherent. Qed.
+Print Assumptions C08_sort_blocks_refines_coherent.
+
+(* edits_refine_keyed_spec over sequences, for the operations whose coherence is proved
+   ([coh_op], Modfile/EditProofsSeq.v): starting from a Coherent file, a run that does not
+   panic ends in a Coherent file whose typed lists and per-operation errors are exactly
+   those of the keyed model. *)
+Theorem C08_edits_refine_keyed_spec_partial : forall ops f errs f',
+  Coherent f ->
+  Forall (fun o => coh_op o = true /\ valid_args o = true) ops ->
+  run_ops ops f = RunOk errs f' ->
+  Coherent f' /\ krun ops (abs f) [] = (abs f', errs).
+Proof. exact run_ops_coherent_refines. Qed.
+Print Assumptions C08_edits_refine_keyed_spec_partial.
+
+(* edits_refine_keyed_spec: every operation except the three bulk setters ([ref_op]) refines
+   its documented step when the file is Coherent, and so does every sequence of them. *)
+Theorem C08_edits_refine_keyed_spec_step : forall o f,
+  ref_op o = true -> valid_args o = true -> Coherent f ->
+  match apply o f with
+  | ROk f' => kstep o (abs f) = (abs f', false)
+  | RErr f' => f' = f /\ snd (kstep o (abs f)) = true
+  | RPanic => True
+  end.
+Proof. exact apply_refines_coherent. Qed.
+Print Assumptions C08_edits_refine_keyed_spec_step.
+
+Theorem C08_edits_refine_keyed_spec : forall ops f errs f',
+  Coherent f ->
+  Forall (fun o => ref_op o = true /\ valid_args o = true) ops ->
+  run_ops ops f = RunOk errs f' ->
+  Coherent f' /\ krun ops (abs f) [] = (abs f', errs).
+Proof. exact run_ops_refines_but_bulk. Qed.
+Print Assumptions C08_edits_refine_keyed_spec.
 
 (* A later operation sees what an earlier one did: e.g. dropping the retraction that was
    just added leaves no entry for it. *)
@@ -59,10 +97,10 @@ Proof. exact comments_kept_run_ops. Qed.
 Print Assumptions C08_untargeted_lines_keep_comments_run.
 
 (* NOT PROVED here:
-   edits_refine_keyed_spec for SetRequire / SetRequireSeparateIndirect / SetUse / AddTool as
-     an equation with [kstep] (the exact-set consequence is C16_set_*_exact; the equation
-     is evaluated by the correspondence run on every case, function EditInv);
-   the composition over sequences needs the preservation of [DedupWf], i.e. the C15
-     coherence invariant (see Props/C15.v);
-   result_parses_strictly and "untargeted lines stay in the tree" (syntax-tree part of
-     coherence). *)
+   the equation with [kstep] for SetRequire / SetRequireSeparateIndirect / SetUse (their
+     exact-set consequence is C16_set_*_exact; the equation itself is evaluated by the
+     correspondence run on every case, function EditInv);
+   result_parses_strictly (needs the parser/printer round trip of C02/C20);
+   "an untargeted line stays in the tree": follows from C15 coherence for the operations
+     covered there (the line of a live entry is a live line of the tree), not stated
+     separately. *)
